@@ -92,8 +92,9 @@ type Exec struct {
 	inShadow  bool
 	curFn     string
 
-	decided map[*Term]bool     // branch conditions already decided on this path
-	known   map[*Term]*big.Int // terms whose value is fixed by a concretisation on this path
+	decided   map[*Term]bool     // branch conditions already decided on this path
+	notUnique map[*Term]bool     // terms known not to be determined by the path condition
+	known     map[*Term]*big.Int // terms whose value is fixed by a concretisation on this path
 
 	mapOrderMode int // 0 insertion order, 1 nondeterministic (fork forward/reversed), 2 reversed
 	mapRev       int // reversed choices taken on this path
@@ -560,7 +561,7 @@ func (e *Exec) assertProp(c Value, id string) {
 
 func NewExec(p *Program, s *Solver, item PathItem) *Exec {
 	e := &Exec{P: p, tf: NewTF(), solver: s, mode: p.Mode, prefix: item.Prefix, model: item.Model,
-		inKind: map[string]string{}, covers: map[string]bool{}, notes: map[string]bool{}, known: map[*Term]*big.Int{}, decided: map[*Term]bool{},
+		inKind: map[string]string{}, covers: map[string]bool{}, notes: map[string]bool{}, known: map[*Term]*big.Int{}, decided: map[*Term]bool{}, notUnique: map[*Term]bool{},
 		globals: map[*ssa.Global]*Value{}, inited: map[*ssa.Package]bool{}, budget: p.Budget, verbose: p.Verbose}
 	return e
 }
@@ -1064,7 +1065,20 @@ func (e *Exec) visit(fr *frame, instr ssa.Instruction) cont {
 			panic(rtPanic("assignment to entry in nil map"))
 		}
 		kt := instr.Map.Type().Underlying().(*types.Map).Key()
-		k := e.concValue(fr.get(instr.Key), kt)
+		kv := fr.get(instr.Key)
+		if e.P.SymMaps && (containsSym(kv) || m.nsym > 0) {
+			if en := e.mapFind(m, kv, kt); en != nil {
+				en.V = copyVal(fr.get(instr.Value))
+			} else if containsSym(kv) {
+				m.entries = append(m.entries, &mapEntry{K: copyVal(kv), V: copyVal(fr.get(instr.Value)), sym: true})
+				m.n++
+				m.nsym++
+			} else {
+				m.Set(keyString(kv), copyVal(kv), copyVal(fr.get(instr.Value)))
+			}
+			break
+		}
+		k := e.concValue(kv, kt)
 		m.Set(keyString(k), copyVal(k), copyVal(fr.get(instr.Value)))
 	case *ssa.TypeAssert:
 		fr.env[instr] = e.typeAssert(instr, fr.get(instr.X).(Iface))
@@ -1143,6 +1157,19 @@ func (e *Exec) lookup(instr *ssa.Lookup, x, idx Value) Value {
 		return uint64(x[i])
 	case *Map:
 		mt := instr.X.Type().Underlying().(*types.Map)
+		if e.P.SymMaps && x != nil && (containsSym(idx) || x.nsym > 0) {
+			var v Value
+			en := e.mapFind(x, idx, mt.Key())
+			if en != nil {
+				v = copyVal(en.V)
+			} else {
+				v = zero(mt.Elem())
+			}
+			if instr.CommaOk {
+				return Tuple{v, en != nil}
+			}
+			return v
+		}
 		k := e.concValue(idx, mt.Key())
 		v, ok := x.Get(keyString(k))
 		if !ok {
@@ -1155,6 +1182,28 @@ func (e *Exec) lookup(instr *ssa.Lookup, x, idx Value) Value {
 		return v
 	}
 	panic(fmt.Sprintf("lookup on %T", x))
+}
+
+// mapFind locates the entry for key k in a map that may hold symbolic keys: equality with every candidate entry is
+// decided on the path (forking where both outcomes are feasible).
+func (e *Exec) mapFind(m *Map, k Value, kt types.Type) *mapEntry {
+	if !containsSym(k) {
+		if i, ok := m.idx[keyString(k)]; ok {
+			return m.entries[i]
+		}
+		for _, en := range m.entries {
+			if en.sym && !en.deleted && e.concBool(e.equal(kt, k, en.K)) {
+				return en
+			}
+		}
+		return nil
+	}
+	for _, en := range m.entries {
+		if !en.deleted && e.concBool(e.equal(kt, k, en.K)) {
+			return en
+		}
+	}
+	return nil
 }
 
 func (e *Exec) rangeIter(x Value, t types.Type) Value {
